@@ -270,3 +270,40 @@ def _equiv(n, m, tier):
 
 _equiv(2, 2, "quick")
 _equiv(3, 2, "thorough")
+
+
+@obligation("C07", "policies_bounded", ensures=["B-C07-large.feasible", "B-C07-large.atmost1", "B-C07-large.greedy-opt", "B-C07-large.munkres-opt", "B-C07-large.allvis", "B-C07-large.random"],
+            fns=[DD + "MyopicNaiveGreedyDecision._calculate", DD + "MunkresDecision._calculate", DD + "AllVisibleDecision._calculate", DD + "RandomDecision._calculate", DB + "Decision.calculate"],
+            mode="R", native_only=True, samples=300,
+            bounded="BOUNDED stand-in, not a proof: 300 (quick) / 3000 (thorough) random reward/visibility matrices per run with 1..12 targets x 1..12 sensors and small-integer rewards (ties, zeros, negatives); "
+                    "the unbounded-in-values proofs above stop at 3x3 (4x4 thorough)",
+            note="same clauses as O-C07-{greedy,munkres,allvis,random}.* on shapes beyond the proved ones; the assignment policy's total reward is compared with an independent optimum (brute force over all complete assignments up to 6x6, scipy beyond)")
+def policies_bounded(vc):
+    import importlib
+    from scipy.optimize import linear_sum_assignment
+    n, m = vc.int("targets", 1, 12), vc.int("sensors", 1, 12)
+    rng = np.random.default_rng(vc.int("seed", 0, 10 ** 9))
+    span = [1, 2, 5, 50][vc.int("span", 0, 3)]
+    R = rng.integers(-span, span + 1, size=(n, m)).astype(float)
+    V = rng.random((n, m)) < [0.2, 0.5, 0.9, 1.0][vc.int("density", 0, 3)]
+    D_ = importlib.import_module(DD[:-1])
+    pols = {"greedy": D_.MyopicNaiveGreedyDecision(), "munkres": D_.MunkresDecision(), "allvis": D_.AllVisibleDecision(), "random": D_.RandomDecision(int(rng.integers(0, 1000)))}
+    out = {k: p.calculate(R.copy(), V.copy()) for k, p in pols.items()}
+    vc.ensure("B-C07-large.feasible", all(bool(np.all(~d | V)) and d.shape == (n, m) and d.dtype == bool for d in out.values()))
+    vc.ensure("B-C07-large.atmost1", all(bool(np.all(out[k].sum(axis=0) <= 1)) for k in ("greedy", "munkres", "random")) and bool(np.all(out["munkres"].sum(axis=1) <= 1)))
+    g = np.zeros((n, m), dtype=bool)
+    g[np.argmax(R, axis=0), np.arange(m)] = True  # first maximal row of every column
+    vc.ensure("B-C07-large.greedy-opt", bool(np.array_equal(out["greedy"], g & V)))
+    vc.ensure("B-C07-large.allvis", bool(np.array_equal(out["allvis"], V)))
+    vc.ensure("B-C07-large.random", bool(np.array_equal(out["random"].sum(axis=0) == 1, V.any(axis=0))))
+    # assignment policy: D = A & V for some complete one-to-one assignment A of maximal total reward
+    A = pols["munkres"]._calculate(R.copy(), V.copy())
+    k = min(n, m)
+    if max(n, m) <= 6:
+        best = max(sum(R[i, j] for i, j in zip(rows, cols)) for rows in (itertools.combinations(range(n), k) if n > m else [tuple(range(n))])
+                   for cols in itertools.permutations(range(m), k))
+    else:
+        r_, c_ = linear_sum_assignment(R, maximize=True)
+        best = R[r_, c_].sum()
+    ok = A.sum() == k and bool(np.all(A.sum(axis=0) <= 1)) and bool(np.all(A.sum(axis=1) <= 1)) and abs(R[A].sum() - best) < 1e-9 and bool(np.array_equal(out["munkres"], A & V))
+    vc.ensure("B-C07-large.munkres-opt", bool(ok))
